@@ -42,6 +42,13 @@ MUTANTS = [
     ("C02", "no-end-anchor", "typhon/files/fileset.py", 'regex_string = "^" + path.format(**placeholder) + "$"', 'regex_string = "^" + path.format(**placeholder)'),
     ("C02", "handler-none-overwrites", "typhon/files/handlers/common.py", "if other_info.times[1] is not None or not ignore_none_time:", "if True:"),
     ("C02", "superior-wrong-unit", "typhon/files/fileset.py", "superior_resolution = resolutions[highest_resolution_index - 1]", "superior_resolution = resolutions[highest_resolution_index]"),
+    ("C06", "perm-wrong-way", "typhon/geographical.py", "            pairs[0, :] = self.shuffler[pairs[0, :]]\n\n            return pairs, distances", "            pairs[0, :] = np.argsort(self.shuffler)[pairs[0, :]]\n\n            return pairs, distances"),
+    ("C06", "km-factor", "typhon/geographical.py", "        if self.metric == \"minkowski\":\n            r *= 1000.", "        if self.metric == \"minkowski\":\n            r *= 1000.0001"),
+    ("C06", "miles-factor", "typhon/geographical.py", '[{"mi", "mile", "miles"}, 1.609344]', '[{"mi", "mile", "miles"}, 1.852]'),
+    ("C06", "any-empty", "typhon/geographical.py", "        if pairs.size == 0:\n            return pairs, pairs", "        if not pairs.any():\n            return pairs, pairs"),
+    ("C06", "haversine-radians", "typhon/geographical.py", "            distances *= earth_radius\n", "            pass\n"),
+    ("C06", "haversine-radius", "typhon/geographical.py", "            r *= 1000. / earth_radius", "            r *= 1. / earth_radius"),
+    ("C06", "nodist-unshuffled", "typhon/geographical.py", "            if pairs.size and self.shuffler is not None:", "            if False:"),
 ]
 
 
